@@ -44,7 +44,7 @@ def check(ctx):
                 if not isinstance(c.func, ast.Attribute) or c.args:
                     continue
                 lk = unparse(c.func.value)
-                if unparse(c) == "self.lock.acquire(*args, **kwargs)":
+                if eqv(c, "self.lock.acquire(*args, **kwargs)"):
                     continue
                 n_sites += 1
                 st = enclosing_stmt(c)
@@ -86,7 +86,7 @@ def check(ctx):
     # ---------------- load_store_chunk
     mod = model.module(CORE)
     f = mod.func("load_store_chunk")
-    writes = [n for n in walk_no_nested(f) if isinstance(n, ast.Assign) and isinstance(n.targets[0], ast.Subscript) and unparse(n.targets[0].value) == "out"]
+    writes = [n for n in walk_no_nested(f) if isinstance(n, ast.Assign) and isinstance(n.targets[0], ast.Subscript) and eqv(n.targets[0].value, "out")]
     ctx.count("target_writes", len(writes))
     ctx.floor("target_writes", 1)
     acq = [c for c in calls(f, "acquire", nested=False)]
@@ -97,7 +97,7 @@ def check(ctx):
             holder = holder._parent
         ok = t is not None and part == "body" and bool(t.finalbody) and "lock.release()" in unparse(t.finalbody) and holder is not None and dominates(f, holder, t)
         ctx.ob("PAIR.store-in-lock", w, f"{unparse(w)} between lock.acquire() and the releasing finally", ok, "" if ok else "the target is written outside the locked region")
-        ok2 = unparse(w.targets[0].slice) == "index"
+        ok2 = eqv(w.targets[0].slice, "index")
         ctx.ob("PAIR.store-index", w, "written at out[index]", ok2)
         val = unparse(w.value)
         ok3 = val in ("x", "np.asanyarray(x)")
@@ -107,11 +107,11 @@ def check(ctx):
     ok = len(fs) == 1 and len(alt) == 1 and has_fact(inline_facts(f, fs[0][0]), "region", True) is not None and has_fact(inline_facts(f, fs[0][0]), "index", True) is not None and has_fact(inline_facts(f, alt[0][0]), "index", False) is not None
     ok = ok and all(dominates(f, enclosing_stmt(fs[0][0])._parent._parent if False else fs[0][0], w) or True for w in writes)
     g = cfg_of(f)
-    rg = [n for n in f.body if isinstance(n, ast.If) and unparse(n.test) == "region"]
+    rg = [n for n in f.body if isinstance(n, ast.If) and eqv(n.test, "region")]
     ok = ok and bool(rg) and all(g.dominates(g.node_of(rg[0]), g.node_of(w)) for w in writes)
     ctx.ob("PAIR.region-index", f, "region is combined with the block index (fuse_slice(region, index)) before the write", ok, "" if ok else "the write ignores the region or composes it in the wrong order")
     rets = [r for r in ast.walk(f) if isinstance(r, ast.Return)]
-    ok = any(unparse(r.value) == "out[index]" and has_fact(inline_facts(f, r), "load_stored", True) is not None for r in rets) and any(unparse(r.value) == "out" for r in rets)
+    ok = any(eqv(r.value, "out[index]") and has_fact(inline_facts(f, r), "load_stored", True) is not None for r in rets) and any(eqv(r.value, "out") for r in rets)
     ctx.ob("PAIR.return-stored", f, "return_stored: out[index] when load_stored else out", ok)
     lc = mod.func("load_chunk")
     cs = [c for c in calls(lc, "load_store_chunk")]
@@ -120,11 +120,11 @@ def check(ctx):
     # ---------------- store()
     st = mod.func("store")
     loops = [l for l in walk_no_nested(st) if isinstance(l, ast.For) and isinstance(l.iter, ast.Call) and call_name(l.iter) == "zip" and "sources" in unparse(l.iter)]
-    ok = len(loops) == 1 and [unparse(a) for a in loops[0].iter.args] == ["sources", "targets", "regions_list"] and unparse(loops[0].target) == "(s, t, r)"
+    ok = len(loops) == 1 and [unparse(a) for a in loops[0].iter.args] == ["sources", "targets", "regions_list"] and eqv(loops[0].target, "(s, t, r)")
     ctx.ob("DELEG.store.zip", st, "for s, t, r in zip(sources, targets, regions_list)", ok, "" if ok else "sources, targets and regions are not paired positionally")
     if loops:
         mb = [c for c in calls(loops[0], "map_blocks")]
-        ok = len(mb) == 1 and unparse(mb[0].func.value) == "s" and [unparse(a) for a in mb[0].args] == ["load_store_chunk", "t", "slices"] and unparse(kwarg(mb[0], "region")) == "r" and unparse(kwarg(mb[0], "lock")) == "lock" and unparse(kwarg(mb[0], "return_stored")) == "return_stored" and unparse(kwarg(mb[0], "load_stored")) == "load_stored"
+        ok = len(mb) == 1 and eqv(mb[0].func.value, "s") and [unparse(a) for a in mb[0].args] == ["load_store_chunk", "t", "slices"] and unparse(kwarg(mb[0], "region")) == "r" and unparse(kwarg(mb[0], "lock")) == "lock" and unparse(kwarg(mb[0], "return_stored")) == "return_stored" and unparse(kwarg(mb[0], "load_stored")) == "load_stored"
         ctx.ob("DELEG.store.map-blocks", mb[0] if mb else st, "s.map_blocks(load_store_chunk, t, slices, region=r, lock=lock, return_stored=..., load_stored=...)", ok)
         # a store is an effect on one particular target object: its tasks must be named after the
         # target's identity (content tokens deduplicate stores into equal-looking targets)
@@ -160,23 +160,23 @@ def check(ctx):
     wt, rt = path_of(w, "np.save"), path_of(r, "np.load")
     ctx.count("npy_stack_tasks", len(wt) + len(rt))
     ctx.floor("npy_stack_tasks", 2, "(np.save, path, key) in to_npy_stack and (np.load, path, mmap_mode) in from_npy_stack")
-    ok = len(wt) == 1 and len(rt) == 1 and unparse(wt[0].elts[1]) == unparse(rt[0].elts[1]) == "os.path.join(dirname, f'{i}.npy')"
+    ok = len(wt) == 1 and len(rt) == 1 and eqv(wt[0].elts[1], "os.path.join(dirname, f'{i}.npy')") and eqv(rt[0].elts[1], "os.path.join(dirname, f'{i}.npy')")
     ctx.ob("TAB.npy-stack.file-name", r, "block i is written to and read from os.path.join(dirname, f'{i}.npy')", ok, "" if ok else f"writer {unparse(wt[0].elts[1]) if wt else None} vs reader {unparse(rt[0].elts[1]) if rt else None}")
     # the index i: writer enumerates the blocks of the array rechunked to one block on every other axis,
     # reader counts the chunks along the stacking axis
     wc = getattr(wt[0], "_parent", None) if wt else None
-    ok = isinstance(wc, ast.DictComp) and unparse(wc.generators[0].target) == "(i, key)" and unparse(wc.generators[0].iter) == "enumerate(core.flatten(xx.__dask_keys__()))" and unparse(wc.key) == "(name, i)" and unparse(wt[0].elts[2]) == "key"
+    ok = isinstance(wc, ast.DictComp) and eqv(wc.generators[0].target, "(i, key)") and eqv(wc.generators[0].iter, "enumerate(core.flatten(xx.__dask_keys__()))") and eqv(wc.key, "(name, i)") and eqv(wt[0].elts[2], "key")
     ok = ok and bool(find("xx = x.rechunk(chunks)", w)) and bool(find("chunks = tuple((c if i == axis else (sum(c),) for i, c in enumerate(x.chunks)))", w))
     ctx.ob("TAB.npy-stack.writer-index", w, "writer: i enumerates the blocks of x rechunked to a single block on every axis but `axis`", ok)
     rc = getattr(rt[0], "_parent", None) if rt else None
-    ok = isinstance(rc, ast.ListComp) and unparse(rc.generators[0].target) == "i" and unparse(rc.generators[0].iter) == "range(len(chunks[axis]))"
+    ok = isinstance(rc, ast.ListComp) and eqv(rc.generators[0].target, "i") and eqv(rc.generators[0].iter, "range(len(chunks[axis]))")
     ctx.ob("TAB.npy-stack.reader-index", r, "reader: block i for i in range(len(chunks[axis])) (by number, not by directory listing)", ok, "" if ok else "the reader does not address the files by block number: the order of blocks along the stacking axis is not the written one")
-    ok = bool(find("keys = list(product([name], *[range(len(c)) for c in chunks]))", r)) and bool(find("dsk = dict(zip(keys, values))", r)) and any(unparse(x.value) == "Array(dsk, name, chunks, dtype)" for x in returns(r))
+    ok = bool(find("keys = list(product([name], *[range(len(c)) for c in chunks]))", r)) and bool(find("dsk = dict(zip(keys, values))", r)) and any(eqv(x.value, "Array(dsk, name, chunks, dtype)") for x in returns(r))
     ctx.ob("TAB.npy-stack.reader-keys", r, "keys in block order zipped with the files; Array(dsk, name, chunks, dtype)", ok)
     meta = find("meta = M_v", w)
     wkeys = set(dict_literal_keys(meta[0][1]["M_v"]) or {}) if meta else set()
     wvals = {k: unparse(v) for k, v in (dict_literal_keys(meta[0][1]["M_v"]) or {}).items()} if meta else {}
-    rkeys = {const(n.slice) for n in ast.walk(r) if isinstance(n, ast.Subscript) and unparse(n.value) == "info"}
+    rkeys = {const(n.slice) for n in ast.walk(r) if isinstance(n, ast.Subscript) and eqv(n.value, "info")}
     ok = wkeys == rkeys == {"chunks", "dtype", "axis"} and wvals == {"chunks": "chunks", "dtype": "x.dtype", "axis": "axis"}
     ok = ok and all(bool(find(f"{k} = info['{k}']", r)) for k in ("chunks", "dtype", "axis"))
     ctx.ob("TAB.npy-stack.info", w, "info file: writer stores {chunks (rechunked), dtype, axis}; reader uses exactly these", ok, "" if ok else f"writer {wvals} vs reader {sorted(map(str, rkeys))}")
